@@ -188,3 +188,17 @@ Definition c12_splinecv (n : nat) (mindists dampings : list D) (table : list (li
     exact_list pred_cv pred_ref &&
     forallb (fun o => pair_eqb (QD (fst o), QD (snd o)) ch) others in
   mk_verdict agree holds.
+
+(** SplineCV constructed with options that must reach both the candidates and
+    the final model (force_coords, engine): [nforce] is the number of forces
+    the final model must have (the size of force_coords, or of the data when
+    none is given), [nforce_obs] the observed sizes of force_ and of each
+    array of force_coords_, [params_ok] whether the parameters of the final
+    Spline object are the requested ones (observed in python); the prediction
+    lists also carry force_ and the delayed variant's prediction *)
+Definition c12_splinecv_full (n : nat) (mindists dampings : list D) (table : list (list D)) (scores : list D)
+    (chosen : D * D) (pred_cv pred_ref : list D) (others : list (D * D))
+    (nforce : nat) (nforce_obs : list nat) (params_ok : bool) : verdict :=
+  let v := c12_splinecv n mindists dampings table scores chosen pred_cv pred_ref others in
+  if forallb (Nat.eqb nforce) nforce_obs && params_ok then v
+  else match v with Vok | Vskip | Vviol => Vviol | _ => Vboth end.
